@@ -55,6 +55,7 @@ type Contract struct {
 	RecvFrom   []*RecvRule
 	Binds      []*Clause // logical (ghost) variables bound to entry values
 	Yields     []*Clause // logical (ghost) variables naming values at return
+	Defines    []*Clause // spec terms defined as the result of this (deterministic) function: assumed at call sites, not checked in the body
 }
 
 // RecvRule: facts (and ghost effects) attached to a channel receive.
@@ -143,7 +144,7 @@ var clauseKeywords = map[string]bool{
 	"modifies": true, "loop": true, "lit": true, "inline": true, "pure": true, "arith": true,
 	"nowrap": true, "concurrent": true, "deterministic": true, "ghost": true, "spec": true,
 	"axiom": true, "lemma": true, "const-invariant": true, "type": true, "guarded_by": true,
-	"monitor": true, "invariant": true, "cover": true, "trusted": true, "opt": true, "assert": true, "hint": true, "binds": true, "yields": true,
+	"monitor": true, "invariant": true, "cover": true, "trusted": true, "opt": true, "assert": true, "hint": true, "defines": true, "binds": true, "yields": true,
 	"havoc-calls": true, "end": true, "recv": true, "recv-from": true, "sort-less": true, "writers": true,
 }
 
@@ -436,6 +437,15 @@ func parseContractFile(path, pkgPath string) (*ContractFile, error) {
 			}
 			c.Name = name
 			target.Yields = append(target.Yields, c)
+		case "defines":
+			if target == nil {
+				return nil, fail(l, "defines outside func block")
+			}
+			c, err := mkClause("defines", strings.TrimSpace(rest), l)
+			if err != nil {
+				return nil, err
+			}
+			target.Defines = append(target.Defines, c)
 		case "trusted":
 			if curLemma != nil {
 				curLemma.Trusted = true
